@@ -155,6 +155,15 @@ def v1(repo: Repo) -> RuleResult:
                 why = f"{ctor}.from_value is not called exactly once on a path"
                 continue
             nm, val = cs[0].kw.get("name"), cs[0].kw.get("value")
+            # positional arguments by the signature of from_value
+            fv = m.lookup(m.cls(ctor, "_ast.py"), "from_value")
+            if fv is not None:
+                prm_fv = [a_.arg for a_ in fv.node.args.args][1:]
+                for i_, a_v in enumerate(cs[0].args or []):
+                    if i_ < len(prm_fv) and prm_fv[i_] == "name" and nm is None:
+                        nm = a_v
+                    if i_ < len(prm_fv) and prm_fv[i_] == "value" and val is None:
+                        val = a_v
             if nm is None or _sh(nm) != "p[2]":
                 why = f"name={_sh(nm) if nm is not None else None}"
             if val is None:
